@@ -112,15 +112,21 @@ def idOfSnap : Snap → Nat
   | [] => 0
   | e :: _ => e.fr
 
-def parseCtx (s : String) : Option (List BC) :=
+/-- `binding:type:sync:objectsId:declIndex` — the context carries the effective include list of the
+declaration that emitted it (what the controllers put into `Metadata.IncludeSnapshots`) -/
+def parseCtx (h : HookDecl) (s : String) : Option (List (BC × Nat)) :=
   if s == "-" || s == "" then some [] else
   (s.splitOn ";").mapM (fun x =>
     match x.splitOn ":" with
-    | [b, t, sy, o] => do
+    | [b, t, sy, o, d] => do
       let b ← b.toNat?
       let t ← btype? t
       let o ← o.toNat?
-      some { binding := b, btype := t, isSync := sy == "1", objects := snapOfId o }
+      let d ← d.toNat?
+      let incl := match (h.ofType t)[d]? with
+        | some decl => effectiveInclude h.kube decl
+        | none => []
+      some ({ binding := b, btype := t, isSync := sy == "1", objects := snapOfId o, metaIncl := incl }, d)
     | _ => none)
 
 /-- `name=id` / `name=nil` in call order -/
@@ -149,9 +155,9 @@ def sortPairs (l : List (Nat × Snap)) : List (Nat × Snap) :=
   l.mergeSort (fun a b => a.1 ≤ b.1)
 
 def showBC (bc : BC) : String :=
-  s!"{bc.binding}:o={idOfSnap bc.objects}:s={showPairs (sortPairs bc.snapshots)}"
+  s!"{bc.binding}:o={idOfSnap bc.objects}:s={showPairs (sortPairs (visibleSnapshots bc))}"
 
-def parseObs (ctx : List BC) (s : String) : Option (List ExecObs) :=
+def parseObs (ctx : List (BC × Nat)) (s : String) : Option (List ExecObs) :=
   let parts := if s == "-" || s == "" then [] else s.splitOn ";"
   if parts.length != ctx.length then none else
   (ctx.zip parts).mapM (fun p =>
@@ -164,7 +170,7 @@ def parseObs (ctx : List BC) (s : String) : Option (List ExecObs) :=
         (sn.splitOn "+").mapM (fun y => match y.splitOn "=" with
           | [n, v] => do some ((← n.toNat?), snapOfId (← v.toNat?))
           | _ => none)
-      some { binding := b, btype := p.1.btype, isSync := p.1.isSync, objects := snapOfId o, snapshots := pairs }
+      some { binding := b, btype := p.1.1.btype, decl := p.1.2, isSync := p.1.1.isSync, objects := snapOfId o, snapshots := pairs }
     | _ => none)
 
 def step (st : St) (toks : List String) : St × String :=
@@ -258,13 +264,13 @@ def step (st : St) (toks : List String) : St × String :=
       ({ st with hook := { kube := k, sched := s, validating := v, mutating := m, conversion := c } }, "ok")
     | _, _, _, _, _ => (st, "bad-op")
   | "exec" :: rest =>
-    match parseCtx ((kv? "ctx" rest).getD "-"), parseReads ((kv? "reads" rest).getD "-") with
+    match parseCtx st.hook ((kv? "ctx" rest).getD "-"), parseReads ((kv? "reads" rest).getD "-") with
     | some ctx, some calls =>
-      let out := updateSnapshots st.hook.effective (readOf calls) ctx
+      let out := updateSnapshots st.hook.effective (readOf calls) (ctx.map (·.1))
       (st, if out.isEmpty then "-" else String.intercalate ";" (out.map showBC))
     | _, _ => (st, "bad-op")
   | "oracle" :: "exec" :: rest =>
-    match parseCtx ((kv? "ctx" rest).getD "-"), parseReads ((kv? "reads" rest).getD "-") with
+    match parseCtx st.hook ((kv? "ctx" rest).getD "-"), parseReads ((kv? "reads" rest).getD "-") with
     | some ctx, some reads =>
       match parseObs ctx ((kv? "got" rest).getD "-") with
       | some obs => if execExact st.hook reads obs then (st, "true") else (st, "false")
